@@ -519,7 +519,8 @@ class SymtableCodeGen(AbstractCodeGen):
     # noinspection PyUnusedLocal
     def genSequence(self, data, classmode=False):
         cols = data[0]
-        self._cols.update(cols)
+        # (objects are looked up in this table under their translated names)
+        self._cols.update([(self.transOpers(name), syntax) for name, syntax in cols])
         return '', ''
 
     # noinspection PyUnusedLocal
